@@ -17,10 +17,16 @@ interleavings share one state; the shape of Put comes from the regenerated facts
                                                      (pkg/queue/page/factory.go driven directly)
   p-new   p-write <hex|->   p-writegen <start> <len>   p-replica <idx> <hex|->   p-ackidx
   p-reset <idx>   p-expire   p-close   p-reopen      (replica/partition.go over the queue)
+  mw-new   mw-call <t> put|reset|ack <arg>   mw-run <t>   mw-crash
+                                                     (the writers of the meta page as threads, programs
+                                                      decoded from Generated/C05Meta; mw-run executes thread t
+                                                      up to its next store into the meta page)
 -/
 import LinVerif.Util.Proto
 import LinVerif.Model.QueueFactory
+import LinVerif.Model.C05QueueMeta
 import LinVerif.Generated.C05
+import LinVerif.Generated.C05Meta
 
 namespace LinVerif.Driver.C05
 open LinVerif LinVerif.Queue
@@ -74,6 +80,8 @@ structure DSt where
   shape : Option Shape
   fct : Option Fct := none       -- the factory of the `f-*` ops (none before `f-new`)
   pclosed : Bool := false        -- partition.closed of the `p-*` ops
+  mw : Option QueueMeta.MSt := none                 -- the `mw-*` ops (none before `mw-new`)
+  progs : Option QueueMeta.Progs := QueueMeta.decodeProgs Generated.C05Meta.metaWriters
 
 def DSt.init : DSt := { σ := CSt.init, shape := shapeOf Generated.C05.putCalls }
 
@@ -210,6 +218,50 @@ def cAlloc (d : DSt) (shape : Shape) (t : Nat) (m : Msg) : DSt × String :=
   | some (_, .failed) => (d, "bad-op")
   | _ => (d, "not-enabled")
 
+def showMw (σ : QueueMeta.MSt) : String :=
+  s!"mem={σ.memApp},{σ.memAck} disk={σ.diskApp},{σ.diskAck} held={σ.holder.isSome}"
+
+/-- the `mw-*` ops: Put / SetAppendedSeq / SetAcknowledgedSeq as threads over the meta words -/
+def mwStep (d : DSt) (ws : List String) : DSt × String :=
+  match d.progs with
+  | none => (d, "no-model")          -- the regenerated programs contain something the model does not know
+  | some P =>
+    match ws, d.mw with
+    | ["mw-new"], _ =>
+      if d.σ.busy ≠ 0 then (d, "not-enabled") else
+      let σ : QueueMeta.MSt :=
+        { memApp := d.σ.q.appended, memAck := d.σ.q.acked,
+          diskApp := d.σ.mem.metaW queueAppendedSeqOffset, diskAck := d.σ.mem.metaW queueAcknowledgedSeqOffset,
+          holder := none, ths := fun _ => .idle, rets := [] }
+      ({ d with mw := some σ }, "ok " ++ showMw σ)
+    | ["mw-call", t, k, a], some σ =>
+      let kind : Option QueueMeta.Kind :=
+        if k = "put" then some .put else if k = "reset" then some .reset else if k = "ack" then some .ack else none
+      match t.toNat?, kind, a.toInt? with
+      | some t, some k, some a =>
+        match QueueMeta.mstep P σ (.call t k a) with
+        | some σ' => ({ d with mw := some σ' }, "ok")
+        | none => (d, "not-enabled")
+      | _, _, _ => (d, "bad-op")
+    | ["mw-run", t], some σ =>
+      match t.toNat? with
+      | some t =>
+        match QueueMeta.runToStore P σ t 64 true with
+        | (σ', .parked (.diskApp _) v) => ({ d with mw := some σ' }, s!"parked disk.app={v} " ++ showMw σ')
+        | (σ', .parked (.diskAck _) v) => ({ d with mw := some σ' }, s!"parked disk.ack={v} " ++ showMw σ')
+        | (σ', .parked _ _) => ({ d with mw := some σ' }, "bad-op")
+        | (σ', .done .put r) => ({ d with mw := some σ' }, s!"done ret={r} " ++ showMw σ')
+        | (σ', .done _ _) => ({ d with mw := some σ' }, "done " ++ showMw σ')
+        | (σ', .blocked) => ({ d with mw := some σ' }, "blocked")
+        | (_, .notRunning) => (d, "not-enabled")
+        | (_, .stuck) => (d, "stuck")
+      | none => (d, "bad-op")
+    | ["mw-crash"], some σ =>
+      let σ' := QueueMeta.crash P σ
+      ({ d with mw := some σ' }, "ok " ++ showMw σ')
+    | _, _ => (d, "bad-op")
+
+
 def step (d : DSt) (ws : List String) : DSt × String :=
   match d.shape with
   | none => (d, "bad-op")      -- the structure of Put is not one the model knows
@@ -308,6 +360,7 @@ def step (d : DSt) (ws : List String) : DSt × String :=
   | w :: _ =>
     if w.startsWith "f-" then fctStep d ws
     else if w.startsWith "p-" then partStep d ws
+    else if w.startsWith "mw-" then mwStep d ws
     else (d, "bad-op")
   | _ => (d, "bad-op")
 
